@@ -1931,6 +1931,81 @@ def m_hashmap_entry(ex, st, fr, path, args, m):
     return Ref(r.cell, r.path + (("f", 0), ("i", k), ("f", 1)), None, False, True)
 
 
+# RwLock / Mutex in *sequential* code: the lock is a box around its value (no contention, no poisoning: stated assumption)
+@model(r"^(?:std::sync::)?(RwLock|Mutex)::<(.*)>::(new|read|write|lock|into_inner)$")
+def m_lock(ex, st, fr, path, args, m):
+    op = m.group(3)
+    if op == "new":
+        return Agg("struct", [args[0]], name="Lock")
+    if op == "into_inner":
+        return ok(args[0].fields[0])
+    r = args[0]
+    v = deref_val(r)
+    while isinstance(v, Ref):
+        r = v
+        v = deref_val(r)
+    if not (isinstance(v, Agg) and v.name == "Lock"):
+        raise Unsupported(f"lock expected, got {v!r}")
+    return ok(Agg("struct", [Ref(r.cell, r.path + (("f", 0),), None, False, op != "read")], name="LockGuard"))
+
+
+@model(r"^<(?:std::sync::)?(RwLockReadGuard|RwLockWriteGuard|MutexGuard)<.*> as (?:std::ops::)?(Deref|DerefMut)>::(deref|deref_mut)$")
+def m_guard_deref(ex, st, fr, path, args, m):
+    g = deref_val(args[0])
+    while isinstance(g, Ref):
+        g = deref_val(g)
+    if not (isinstance(g, Agg) and g.name == "LockGuard"):
+        return NotImplemented
+    return g.fields[0]
+
+
+@model(r"^<(.*) as (?:itertools::)?Itertools>::sorted_by::<")
+def m_itertools_sorted_by(ex, st, fr, path, args, m):
+    """collect + stable insertion sort driven by the caller's comparison closure (itertools::sorted_by = Vec::sort_by)"""
+    it = as_iter(args[0])
+    if it is None:
+        return NotImplemented
+    it = iter_clone(it)
+    items = []
+    while True:
+        o = iter_next(ex, st, it)
+        if o.variant == "None":
+            break
+        items.append(o.fields[0])
+    out = []
+    for x in items:
+        pos = len(out)
+        for k in range(len(out)):
+            o = ex.call_closure(st, fr, args[1], [Ref(Cell(x)), Ref(Cell(out[k]))])
+            if o.variant == "Less":
+                pos = k
+                break
+        out.insert(pos, x)
+    cell = Cell(VecObj(out))
+    return IterV("slice_val", ref=Ref(cell, (), (0, len(out))), pos=0, end=len(out))
+
+
+@model(r"^<(.*) as (?:std::iter::)?Iterator>::scan::<")
+def m_iter_scan(ex, st, fr, path, args, m):
+    """eager scan: the closure is run over the whole input now (the adaptor is consumed immediately by every caller here)"""
+    it = as_iter(args[0])
+    if it is None:
+        return NotImplemented
+    it = iter_clone(it)
+    state = Cell(args[1])
+    out = []
+    while True:
+        o = iter_next(ex, st, it)
+        if o.variant == "None":
+            break
+        r = ex.call_closure(st, fr, args[2], [Ref(state, (), None, False, True), o.fields[0]])
+        if r.variant == "None":
+            break
+        out.append(r.fields[0])
+    cell = Cell(VecObj(out))
+    return IterV("slice_val", ref=Ref(cell, (), (0, len(out))), pos=0, end=len(out))
+
+
 @model(r"^(?:std::sync::)?Arc::<(.*)>::new$")
 def m_arc_new(ex, st, fr, path, args, m):
     return Ref(Cell(args[0]), (), None, False, False)
